@@ -23,8 +23,8 @@ def theorem_jobs(chk):
     return js
 
 
-def psd_of(name, x, nfft, over):
-    return np.array(zoo.build(name, x, nfft, 1.0, False, **over).psd)
+def psd_of(name, x, nfft, over, scale=False, sampling=1.0):
+    return np.array(zoo.build(name, x, nfft, sampling, scale, **over).psd)
 
 
 def run(chk):
@@ -78,15 +78,17 @@ def run(chk):
                     ev['dev'] = obs.q(np.max(np.abs(p64 - base)) / sc) if ev['len_ok'] else 0
                     batch.add(ev, {'cls': name, 'N': N, 'nfft': nfft, 'kind': kind, 'seed': chk.seed})
                 # real data: one-sided = 2 x first half of the two-sided estimate of the same samples declared complex
-                oko, one = call_guard(psd_of, name, xr.copy(), nfft, over)
-                okt, two = call_guard(psd_of, name, xr.astype(complex), nfft, over)
-                ev = {'ev': 'onesided', 'cls': name, 'nfft': nfft, 'N': N, 'raised': not (oko and okt)}
-                if oko and okt:
-                    h = nfft // 2 + 1 if nfft % 2 == 0 else (nfft + 1) // 2
-                    ev['dev'] = obs.q(np.max(np.abs(one - 2 * two[:h])) / max(float(np.max(np.abs(two))), 1e-300)) if len(one) == h and len(two) == nfft else obs.QCAP
-                else:
-                    ev['dev'] = 0
-                batch.add(ev, {'cls': name, 'N': N, 'nfft': nfft, 'kind': kind, 'seed': chk.seed})
+                # (with and without frequency scaling, two sampling rates: the clause does not depend on either)
+                for scaled, samp in ((False, 1.0), (True, 3.0)):
+                    oko, one = call_guard(psd_of, name, xr.copy(), nfft, over, scaled, samp)
+                    okt, two = call_guard(psd_of, name, xr.astype(complex), nfft, over, scaled, samp)
+                    ev = {'ev': 'onesided', 'cls': name, 'nfft': nfft, 'N': N, 'raised': not (oko and okt), 'scaled': scaled}
+                    if oko and okt:
+                        h = nfft // 2 + 1 if nfft % 2 == 0 else (nfft + 1) // 2
+                        ev['dev'] = obs.q(np.max(np.abs(one - 2 * two[:h])) / max(float(np.max(np.abs(two))), 1e-300)) if len(one) == h and len(two) == nfft else obs.QCAP
+                    else:
+                        ev['dev'] = 0
+                    batch.add(ev, {'cls': name, 'N': N, 'nfft': nfft, 'kind': kind, 'seed': chk.seed, 'scaled': scaled, 'sampling': samp})
     # time reversal of the periodogram with EVERY window name (each window must be symmetric: C20), N even and odd
     for N, nfft in confs[:2]:
         for dt in ('complex', 'real'):
